@@ -48,6 +48,7 @@ type World struct {
 	mbnBusy          map[*ssa.Function]bool
 	pinned           map[*ssa.Function]ssa.CallInstruction
 	condOwner        types.Type // C20: the struct that holds the condition table
+	lazyConst        map[*ssa.Global]bool
 	forceTransp      map[*ssa.Function]bool
 	ifaceByMethod    map[string][]*types.Interface
 	idxSums          map[*ssa.Function]*idxSummary
